@@ -177,7 +177,7 @@ theorem typeIs_scalar (t : String) (j : Json) (ht : primitiveNames.contains t = 
 
 /-- the scalar part of `baseType`: the value is of the schema's primitive type and meets the kept constraints -/
 theorem scalar_ok (N : Names) (R : Rx) (kvs : Obj) (j : Json) (hd : strDistinct (keys kvs) = true)
-    (hf : fragKws kvs kvs = true) (ty : Option String)
+    (hf : fragKws kvs kvs = true) (hne : emptyEnum kvs = false) (ty : Option String)
     (hty : ∀ t, ty = some t → primitiveNames.contains t = true)
     (ha : ((ty <|> inferType kvs) == some "array") = false) (ho : ((ty <|> inferType kvs) == some "object") = false)
     (t0 : Ty) (hb : baseType N kvs (parseKws N kvs) ty = some t0) (hc : conforms R t0 j = true) :
@@ -243,7 +243,7 @@ theorem scalar_ok (N : Names) (R : Rx) (kvs : Obj) (j : Json) (hd : strDistinct 
               cases v with
               | arr xs =>
                 cases xs with
-                | nil => simp at h3
+                | nil => simp [emptyEnum, hlk] at hne
                 | cons x rest => exact ⟨_, rfl⟩
               | _ => simp at h3
             · rw [hlk] at hcst; simp at hcst
